@@ -5,6 +5,12 @@ props = {l['id']: l for l in map(json.loads, open('/verif/properties.jsonl'))}
 
 # property -> (technique, level text, level note, design ref)
 claimed = {
+ 'C03': ("contract-based deductive verification: loop-invariant proof that CreateInBatches tiles the slice into consecutive, in-range, full batches (ghost cursor), each run on the block's connection, SMT-discharged",
+         "Proof of lemma L3 of DESIGN 4/C03 for all slice lengths and batch sizes > 0: every row is in exactly one batch, in order, no batch larger than requested. The field-kind round trip itself (reflection setters/valuers, scanners, SQL engine) is outside the verifier's reach and NOT claimed.",
+         "batchSize > 0 (API precondition, assumed); reflection value conversion, scan.go, the SQL engine; key back-fill (L2) and rectangular VALUES (L1) not yet under contract", "4/C03"),
+ 'C11': ("contract-based deductive verification: full K1 contract (quantified loop invariants, bounds safety) of schema.ToQueryValues; injectivity of the identity key decided by a bounded stand-in on the real utils.ToStringKey",
+         "Proof, for all inputs, that the IN-list handed to the child query holds exactly the parents' key values row by row (single and composite keys). That different key tuples get different identity-map keys is string reasoning outside the verifier's reach: checked exhaustively on the real ToStringKey for all tuples of arity <= 2 (quick) / 3 (thorough) over an adversarial alphabet, labelled bounded.",
+         "Find returns exactly the rows matching the IN list; reflection (field.ValueOf); preload's assignment loop and GetIdentityFieldValuesMap not yet under contract", "4/C11"),
  'C04': ("contract-based deductive verification: ghost-state protocol contracts on DB.Transaction (panic edges, defers), Commit, Rollback, Session over go/ssa, SMT-discharged",
          "Proof of the block-runner protocol: on every normal and panic exit of the real DB.Transaction exactly one of Commit/Rollback (outer) or RollbackTo the same save point (nested) happens as the property demands; Commit/Rollback delegate at most once to the driver transaction and record its error; Session keeps a transaction-bound pool transaction-bound. database/sql atomicity and connection return are assumed.",
          "database/sql makes Commit/Rollback atomic and returns the connection; only fc may panic; dialect SavePoint/RollbackTo do what they say; Begin's body is not yet under contract", "4/C04"),
